@@ -90,6 +90,10 @@ def case(ctx):
         if maker is G.random_blob:
             kw.update(degree=rng.choice([2, 3]))
         spec, info = maker(rng, (round(center[0]), round(center[1])), max(size, 4.0), **kw)
+    if curved and kind in "SU" and rng.random() < 0.12:
+        # a boundary made of a single closed cubic segment
+        spec, info = G.random_teardrop(rng, (round(center[0]), round(center[1])), max(size, 4.0), cw=(kind == "U"),
+                                       num=rng.choice(["float", "float", "frac"]))
     case = Case(ctx, {"shape": spec}, "%s-%s-%s" % (kind, "curved" if G.spec_is_curved(spec) else "straight", G.spec_num(spec)))
     shape = G.build(spec)
     region = S.snap_shape(shape)
